@@ -90,15 +90,15 @@ class AbsSeq(Abstract):
 
 def rule_r2_tag(ctx: Ctx) -> None:
     repo = ctx.repo
-    ctx.rule("C02.R2", "union tag: smallest of 8/16/32/64 bits able to hold the largest variant index, truncated unsigned, computed over the variants", min_instances=2)
+    ctx.rule("C02.R2", "union tag: smallest of 8/16/32/64 bits able to hold the largest variant index, truncated unsigned, computed over the variants", min_instances=1)
     u = ctx.cls(SER + "_composite.UnionType")
     fn = u.methods.get("_compute_tag_bit_length")
-    if fn is None:
-        raise AnalysisError("anchor UnionType._compute_tag_bit_length missing")
-    param = fn.params[0]
-    body = body_without_docstring(ctx.inl(fn))
+    # (if the width computation lives elsewhere - a helper of another module, in-line code - it is decided through the
+    # constructor alone, below, on more variant counts)
+    param = fn.params[0] if fn is not None and fn.params else None
+    body = body_without_docstring(ctx.inl(fn)) if fn is not None else []
     bad = []
-    ns = sorted({2, 3, 4} | {v for j in range(1, 33) for v in (2**j - 1, 2**j, 2**j + 1)})
+    ns = sorted({2, 3, 4} | {v for j in range(1, 33) for v in (2**j - 1, 2**j, 2**j + 1)}) if param is not None else []
     for n in ns:
         for al in (1, 8):
             seq = AbsSeq(n, [Sym(alignment_requirement=al), Sym(alignment_requirement=1)])
@@ -110,7 +110,8 @@ def rule_r2_tag(ctx: Ctx) -> None:
             want = spec.smallest_standard_width(n - 1)
             if w != want:
                 bad.append({"variants": n, "alignment": al, "found": w, "expected": want})
-    ctx.check(not bad, fn.short, "tag width", "tag width must be the smallest of 8/16/32/64 holding index n-1 (%d variant counts)" % len(ns), fn.where(), bad[:6])
+    if param is not None:
+        ctx.check(not bad, fn.short, "tag width", "tag width must be the smallest of 8/16/32/64 holding index n-1 (%d variant counts)" % len(ns), fn.where(), bad[:6])
     # the stored tag type: unions are constructed over n fields mixed with constants and paddings; the tag must be a truncated
     # unsigned integer as wide as the tag computation says for n *variants* (constants are not variants)
     from ..codec import isa_of
@@ -121,8 +122,8 @@ def rule_r2_tag(ctx: Ctx) -> None:
     where = init.where() if init else u.module.relpath
     bad = []
     kinds = set()
-    for n in (2, 3, 255, 256, 257):
-        for n_const in (0, 1, 300):
+    for n in (2, 3, 255, 256, 257) + (() if param is not None else (4, 5, 128, 300)):  # (without the helper only the 8 / 16 bit boundary is within reach)
+        for n_const in (0, 1, 300) if n < 1000 else (0,):
             attrs = [M.attribute_sym(ctx, "Field", "f%d" % i) for i in range(n)]
             consts = [M.attribute_sym(ctx, "Constant", "K%d" % i) for i in range(n_const)]
             o = M.structure(ctx, attributes=consts[: n_const // 2] + attrs + consts[n_const // 2 :], kind="UnionType")
